@@ -194,6 +194,13 @@ ALIAS_PROGRAMS = [
     ("list-alias", 'import typing\nA = typing.TypeAliasType("A", "list[A]")\n', "A"),
     ("list-or-int", 'import typing\nA = typing.TypeAliasType("A", "list[A] | int")\n', "A"),
     ("mutual", 'import typing\nA = typing.TypeAliasType("A", "dict[str, B | int]")\nB = typing.TypeAliasType("B", "list[A]")\n', "A"),
+    # PEP 695 `type` statements: lazily evaluated aliases whose value contains the alias itself
+    ("dict-alias", "type A = dict[str, A | int]\n", "A"),
+    ("list-alias", "type A = list[A]\n", "A"),
+    ("list-or-int", "type A = list[A] | int\n", "A"),
+    ("mutual", "type A = dict[str, B | int]\ntype B = list[A]\n", "A"),
+    ("list-or-int", "type A = list[A] | int\n", "A.__value__"),
+    ("dict-alias", "type A = dict[str, A | int]\n", "A.__value__"),
 ]
 
 
